@@ -356,15 +356,15 @@ fn impl_object_for_enum(ast: &DeriveInput, data: &DataEnum) -> SynStream {
 
         quote! {
             impl #impl_generics pdf::object::Object for #id #ty_generics #where_clause {
-                fn from_primitive(p: pdf::primitive::Primitive, _resolve: &impl pdf::object::Resolve) -> pdf::error::Result<Self> {
-                    match p {
+                fn from_primitive(p: pdf::primitive::Primitive, resolve: &impl pdf::object::Resolve) -> pdf::error::Result<Self> {
+                    match p.resolve(resolve)? {
                         pdf::primitive::Primitive::Integer(i) => {
                             match i {
                                 #( #parts, )*
                                 _ => Err(pdf::error::PdfError::UnknownVariant { id: stringify!(#id), name: i.to_string() })
                             }
                         }
-                        _ => Err(pdf::error::PdfError::UnexpectedPrimitive { expected: "Integer", found: p.get_debug_name() }),
+                        p => Err(pdf::error::PdfError::UnexpectedPrimitive { expected: "Integer", found: p.get_debug_name() }),
                     }
                 }
             }
@@ -393,14 +393,14 @@ fn impl_object_for_enum(ast: &DeriveInput, data: &DataEnum) -> SynStream {
 
         quote! {
             impl #impl_generics pdf::object::Object for #id #ty_generics #where_clause {
-                fn from_primitive(p: pdf::primitive::Primitive, _resolve: &impl pdf::object::Resolve) -> pdf::error::Result<Self> {
-                    match p {
+                fn from_primitive(p: pdf::primitive::Primitive, resolve: &impl pdf::object::Resolve) -> pdf::error::Result<Self> {
+                    match p.resolve(resolve)? {
                         pdf::primitive::Primitive::Name(name) => {
                             match name.as_str() {
                                 #( #parts, )*
                             }
                         }
-                        _ => Err(pdf::error::PdfError::UnexpectedPrimitive { expected: "Name", found: p.get_debug_name() }),
+                        p => Err(pdf::error::PdfError::UnexpectedPrimitive { expected: "Name", found: p.get_debug_name() }),
                     }
                 }
             }
